@@ -1,12 +1,85 @@
 /- Driver operations of property C11 (ops are named "c11.<name>"). Core + Lean.Data.Json only. -/
 import Reamber.Util.Json
+import Reamber.Drv.Timing
+import Reamber.Spec.Reseat
 
-open Lean Reamber.J
+open Lean Reamber.J Reamber.Timing
 
 namespace Reamber.C11
 
-def handle (op : String) (_j : Json) : Except String Json :=
+/-- `from_bpm_changes_snap(t0, l, reseat=True)` with the threshold the implementation really compares with
+(the exact value of the double `0.001` in exact mode) — same shape as `Timing.fromBcSnap` -/
+def fromBcSnapThr (thr t0 : Rat) (l : List BcSnap) : Except Err (List BcOff) :=
+  match sortBcSnap l with
+  | [] => .error .index
+  | b0 :: _ =>
+    if b0.snap.measure ≠ 0 ∨ b0.snap.beat ≠ 0 then .error .value
+    else if l.any (fun b => b.snap.beat ≠ 0) then do
+      let r ← reseat l thr
+      fromBcSnapNoReseat t0 r
+    else fromBcSnapNoReseat t0 l
+
+/-- `TimingMap.reseat()` : re-derive the snaps from the stored offsets, then `from_bpm_changes_snap(…, reseat=True)` -/
+def tmReseat (thr : Rat) (tm : List BcOff) : Except Err (List BcSnap × List BcOff) := do
+  let (bco, bcs) ← bcsOfBco defaultGrid tm
+  let t0 := (bco.headD default).offset
+  let r ← fromBcSnapThr thr t0 bcs
+  .ok (bcs, r)
+
+def specJson (tol : Rat) (ins : List InPt) (outs : List OutPt) (seated : Option Bool) (inSeated : Bool) : Json :=
+  obj [("seated", match seated with | some b => Json.bool b | none => Json.null),
+       ("length", Json.bool (lengthOkB ins.length outs.length)),
+       ("times", Json.bool (interleaveB tol false ins outs)),
+       ("bpm", Json.bool (interleaveB tol true ins outs)),
+       ("in_seated", Json.bool inSeated),
+       ("same", Json.bool (sameTimelineB tol ins outs)),
+       ("out_pts", listToJson (fun (o : OutPt) => Json.arr #[ratToJson o.time, ratToJson o.bpm]) outs)]
+
+def handle (op : String) (j : Json) : Except String Json := do
   match op with
+  | "c11.reseat" =>
+    let cs ← getArr bcSnapOfJson j "cs"
+    let thr ← getRat j "thr"
+    .ok (resToJson (listToJson bcSnapToJson) (reseat cs thr))
+  | "c11.from_snap" =>
+    let cs ← getArr bcSnapOfJson j "cs"
+    let thr ← getRat j "thr"
+    let t0 ← getRat j "t0"
+    .ok (resToJson (listToJson bcOffToJson) (fromBcSnapThr thr t0 cs))
+  | "c11.tm_reseat" =>
+    let tm ← getArr bcOffOfJson j "tm"
+    let thr ← getRat j "thr"
+    .ok (resToJson (fun p => obj [("bcs", listToJson bcSnapToJson p.1), ("tm", listToJson bcOffToJson p.2)]) (tmReseat thr tm))
+  -- specification, evaluated on the implementation's output
+  | "c11.spec" =>
+    let inp ← getArr bcSnapOfJson j "inp"
+    let out ← getArr bcSnapOfJson j "out"
+    let t0 ← getRat j "t0"
+    let tol ← getRat j "tol"
+    let inS := sortBcSnap inp
+    let outS := sortBcSnap out
+    .ok (okJson (specJson tol (inPts t0 inS) (outPts t0 outS) (some (seatedB out)) (seatedB inS)))
+  | "c11.spec_off" =>
+    let inp ← getArr bcSnapOfJson j "inp"
+    let out ← getArr bcOffOfJson j "out"
+    let t0 ← getRat j "t0"
+    let tol ← getRat j "tol"
+    let inS := sortBcSnap inp
+    .ok (okJson (specJson tol (inPts t0 inS) (outPtsOff out) none (seatedB inS)))
+  | "c11.dom" =>
+    let cs ← getArr bcSnapOfJson j "cs"
+    let thr ← getRat j "thr"
+    let s := sortBcSnap cs
+    .ok (okJson (obj [("sorted", Json.bool (sortedSnaps cs)),
+                      ("wf", Json.bool (wfB cs)),
+                      ("first_zero", Json.bool (firstZeroB s)),
+                      ("no_beat_extend", Json.bool (noBeatExtendB thr s)),
+                      ("no_tiny_gap", Json.bool (noTinyGapB thr s)),
+                      ("met_ok", Json.bool (metOkB thr s)),
+                      ("seated", Json.bool (seatedB s)),
+                      ("margin", ratToJson (marginB thr s)),
+                      ("classes", listToJson Json.str (classesOf thr s)),
+                      ("in_times", listToJson ratToJson (cumTimes 0 s))]))
   | _ => .error s!"unknown op {op}"
 
 end Reamber.C11
